@@ -12,6 +12,16 @@ RULES = [
     dict(rule="R6", kind="lit", old="fs::rename(&tmp_path, &self.path)?;", new="fs_rename(fs, &tmp_path, &self.path)?;", why="std::fs::rename -> power-loss model"),
     dict(rule="R6", kind="lit", old="sync_parent_dir(&self.path)?;", new="fs_sync_dir(fs)?;", min=0, why="sync of the parent directory -> power-loss model (one directory)"),
 ] + IOERR_RULES
+TC = RT + "topic_clean.rs"
+M_RULES = [
+    dict(rule="R9", kind="lit", old='format!("{}.tmp", path)', new="tmp_name_str(path)", why='format!("{}.tmp", path) -> stub with the concatenation as its spec'),
+    dict(rule="R5", kind="re", dotall=True, pat=r"rkyv::to_bytes::<_, 256>\(map\)\.map_err\(\|e\| \{.*?\}\)\?", repl="(match rkyv_to_bytes_markers(map) { Ok(b) => b, Err(_) => return Err(io_err(IoKind::Other)) })",
+         why="rkyv::to_bytes(..).map_err(..)? -> stub + explicit match"),
+    dict(rule="R6", kind="lit", old="fs::write(&tmp_path, &bytes)?;", new="fs_write(fs, &tmp_path, bytes.as_slice())?;", why="std::fs::write -> power-loss model"),
+    dict(rule="R6", kind="lit", old="fs::File::open(&tmp_path)?.sync_all()?;", new="fs_open(fs, &tmp_path)?.sync_all(fs)?;", why="File::open + sync_all -> power-loss model"),
+    dict(rule="R6", kind="lit", old="fs::rename(&tmp_path, path)?;", new="fs_rename_str(fs, &tmp_path, path)?;", why="std::fs::rename -> power-loss model"),
+    dict(rule="R6", kind="lit", old="super::index::sync_parent_dir(path)?;", new="fs_sync_dir(fs)?;", min=0, why="sync of the parent directory -> power-loss model (one directory)"),
+] + IOERR_RULES
 P_RULES = [
     dict(rule="R6", kind="re", pat=r"self\.ensure_root\(\)", repl="self.ensure_root(fs)", min=0, why="ghost file system threaded"),
     dict(rule="R6", kind="lit", old="self.newest_wal_file_millis()", new="self.newest_wal_file_millis(fs)", min=0, why="directory listing -> assumed contract over the model"),
@@ -27,7 +37,7 @@ P_SIG = [dict(pat=r"\(&self\)", repl="(&self, fs: &mut Fs)")] + IOERR_SIG
 
 UNIT = dict(
     name="c10_persist",
-    props=["C10", "C09", "C06"],
+    props=["C10", "C09", "C06", "C17"],
     features=["allocator_api"],
     uses=["std::collections::HashMap", "vstd::std_specs::hash::*"],
     prelude=["core_types.rs"],
@@ -35,6 +45,7 @@ UNIT = dict(
         "A-FS: the power-loss model of specs/model/fs_model.rs (file contents durable after sync_all on the file; directory entries - creations and renames - durable after sync_all on the directory; rename atomic)",
         "sync_parent_dir (open(parent) + sync_all) is the model's fs_sync_dir: one directory per instance",
         "A-RKYV: the byte image is a function of the map and decodes back to it",
+        "preconditions of persist / persist_map (assumed, no caller is checked against them): no hard links - a left-over temporary file does not share its inode with the live file or with any other durable directory entry",
     ],
     items=[
         dict(kind="struct", file=IDX, struct="BlockPos", attrs=[]),
@@ -52,5 +63,12 @@ UNIT = dict(
         dict(kind="fn", file=PATHS, path="impl WalPathManager / fn create_new_file", sig_rules=P_SIG, rules=P_RULES,
              ensures=[("C06:a_new_wal_file_never_reuses_or_sorts_before_the_name_of_an_existing_one", "ret matches Ok(p) ==> exists|n: Seq<char>| p@ == join_spec(self.root.p@, n) && name_value(n) is Some && forall|m: Seq<char>| #[trigger] old(fs).vol_dir@.contains_key(join_spec(self.root.p@, m)) && name_value(m) is Some ==> name_value(m)->Some_0 < name_value(n)->Some_0"),
                       ("C10:a_new_wal_file_is_durable_with_its_full_size_when_its_creation_returns", "ret matches Ok(p) ==> after_power_loss(*final(fs), p@) == Some(Seq::new(MAX_FILE_SIZE as nat, |i: int| 0u8))")]),
+        dict(kind="struct", file=TC, struct="CleanMarkerRecord", attrs=[]),
+        dict(kind="model", file="fs_markers_model.rs"),
+        dict(kind="fn", file=TC, path="impl CleanMarkerStore / fn persist_map", wrap_impl=False,
+             sig_rules=[dict(pat=r"\(path: &str,", repl="(fs: &mut Fs, path: &str,")] + IOERR_SIG, rules=M_RULES,
+             requires=[("", "!old(fs).vol_dir@.contains_key(path@ + seq!['.', 't', 'm', 'p']) || old(fs).vol_dir@[path@ + seq!['.', 't', 'm', 'p']] != (if old(fs).vol_dir@.contains_key(path@) { old(fs).vol_dir@[path@] } else { -1 })"),
+                       ("", "forall|p: Seq<char>| #[trigger] old(fs).dur_dir@.contains_key(p) && p != path@ + seq!['.', 't', 'm', 'p'] && old(fs).vol_dir@.contains_key(path@ + seq!['.', 't', 'm', 'p']) ==> old(fs).dur_dir@[p] != old(fs).vol_dir@[path@ + seq!['.', 't', 'm', 'p']]")],
+             ensures=[("C10,C17:persisted_clean_markers_survive_power_loss_once_the_call_returned", "ret is Ok ==> after_power_loss(*final(fs), path@) == Some(markers_bytes(map@))")]),
     ],
 )
